@@ -161,6 +161,7 @@ type rewriter struct {
 	name    string
 	changed bool
 	needVrt bool
+	needNet string // local name of package net when *net.TCPConn was mapped onto *simnet.Conn
 	ctr     int
 
 	chanLenCap map[*ast.CallExpr]string // len/cap on channels
@@ -177,6 +178,7 @@ func (rw *rewriter) fail(n ast.Node, msg string) {
 }
 
 const vrtName = "vrt_"
+const simnetName = "simnet_"
 
 func sel(x, s string) ast.Expr { return &ast.SelectorExpr{X: ast.NewIdent(x), Sel: ast.NewIdent(s)} }
 
@@ -314,6 +316,13 @@ func (rw *rewriter) run() bool {
 		astutil.AddNamedImport(rw.fset, rw.file, vrtName, modPath+"/zzverif/vrt")
 		rw.changed = true
 	}
+	if rw.needNet != "" {
+		astutil.AddNamedImport(rw.fset, rw.file, simnetName, modPath+"/zzverif/simnet")
+		// the file may have imported net for TCPConn only
+		rw.file.Decls = append(rw.file.Decls, &ast.GenDecl{Tok: token.VAR, Specs: []ast.Spec{&ast.ValueSpec{
+			Names: []*ast.Ident{ast.NewIdent("_")}, Type: sel(rw.needNet, "Conn")}}})
+		rw.changed = true
+	}
 	return rw.changed
 }
 
@@ -325,6 +334,15 @@ func (rw *rewriter) chanType(elem ast.Expr) ast.Expr {
 // post is applied bottom-up: children have already been rewritten.
 func (rw *rewriter) post(c *astutil.Cursor) bool {
 	switch x := c.Node().(type) {
+	case *ast.SelectorExpr:
+		// *net.TCPConn (type assertions, conversions, declarations): every connection of the closed world is a
+		// *simnet.Conn, which has the socket-option methods of *net.TCPConn
+		if id, ok := x.X.(*ast.Ident); ok && x.Sel.Name == "TCPConn" {
+			if pn, ok := rw.pkg.TypesInfo.Uses[id].(*types.PkgName); ok && pn.Imported().Path() == "net" {
+				rw.needNet = id.Name
+				c.Replace(sel(simnetName, "Conn"))
+			}
+		}
 	case *ast.ChanType:
 		c.Replace(rw.chanType(x.Value))
 	case *ast.CallExpr:
